@@ -5,7 +5,7 @@ import random
 from vf import core
 
 THEOREMS = ["ring_bounded", "ring_no_overwrite", "ring_exactly_once_fifo",
-            "ring_pop_returns_oldest", "ring_failure_justified"]
+            "ring_pop_returns_oldest", "ring_failure_justified", "ring_shift_invariant"]
 PUSH, POP = 1, 2
 STEPS = 5  # accesses of a successful trypush / trypop
 
